@@ -7,6 +7,7 @@
 //                                                       the multiplier forms of calc_gradient_)
 //   ffb <pow|atan2> T A B  T = f(A, B)                 A, B active or passive in any combination, rank 1..2     (part 1)
 //   ffbl <pow|atan2> T c A T = f(c, A)                 ffbr pow T A c    T = pow(A, c)       A active              (part 1)
+//   ffbn <pow|atan2> T A B T = f(A, B) * B             A, B active (the multiplier forms of Pow / Atan2::calc_left/right) (part 1)
 #include "drv_arrayad.h"
 #include <type_traits>
 namespace aad {
@@ -63,6 +64,17 @@ int AAD_EXEC(const Words& w, Ctx& c) {
       auto& t = as<R, true>(*T);
       return with<R>(A, [&](auto& a) { return with<R>(B, [&](auto& b) {
         if (p) t = pow(a, b); else t = atan2(a, b); return true; }); }) ? 1 : -1;
+    });
+  }
+  if (k == "ffbn" && w.size() == 5) {
+    bool p = w[1] == "pow"; Obj* T = ftarget(w[2]); if ((!p && w[1] != "atan2") || !T) return -1;
+    return by_rank12f(T->rank, [&](auto Rc) {
+      constexpr int R = decltype(Rc)::value;
+      Obj* A = getat(w[3], R); Obj* B = getat(w[4], R); if (!A || !B) return -1;
+      c.pre({T, A, B});
+      auto& t = as<R, true>(*T); auto& a = as<R, true>(*A); auto& b = as<R, true>(*B);
+      if (p) t = pow(a, b) * b; else t = atan2(a, b) * b;
+      return 1;
     });
   }
   if ((k == "ffbl" || k == "ffbr") && w.size() == 5) {
